@@ -69,7 +69,8 @@ def evaluate_table(case):
     numpy.random.seed((seed * 7 + 13) % 2 ** 32)  # disturb the global state between the two calls
     numpy.random.random(5)
     with captured_stdout():
-        second = lib_call(dsw.create_random_shuffles, observed_length=k, random_seed=seed,
+        second = lib_call(dsw.create_random_shuffles, observed_length=k,
+                          random_seed=numpy.int64(seed) if seed < 2 ** 62 and seed % 2 else seed,
                           verbose=case["verbose_twin"])
     if isinstance(second, Raised):
         return bad("second call (verbose=%s) raised %r" % (case["verbose_twin"], second), labels)
